@@ -22,9 +22,9 @@ PROP = dict(
 MANIFEST = dict(
     text="Coq theorems about the code-shaped model of ptn/ptn.go and ptn/iterator.go: the look-ahead Iterator latches (iterator_stops), "
          "PositionAtMove equals a 15-line specification walk for every game, move number and colour (position_at_move_spec), parsing the "
-         "rendering of a syntactically well-formed game gives the game back, with or without BOM (ptn_render_parse), ParsePTN never panics on any "
-         "byte string (parse_ptn_total) and InitialPosition/Iterator/PositionAtMove never panic from any start position, TPS positions with "
-         "arbitrary stacks included (ptn_file_total_partial: the TPS parser's own totality is a premise; also used by C13). The model is run against ParsePTN/Render/InitialPosition/Iterator/PositionAtMove on "
+         "rendering of a syntactically well-formed game gives the game back, with or without BOM (ptn_render_parse), and for every byte string ParsePTN, "
+         "InitialPosition, the Iterator replay and PositionAtMove never panic, TPS start positions with arbitrary stacks included "
+         "(ptn_file_total; also listed by C13). The model is run against ParsePTN/Render/InitialPosition/Iterator/PositionAtMove on "
          "generated and mutated game texts, and an independent Go oracle (naive walk over the generated game with the rules oracle and DFS "
          "road search) judges the implementation's answers directly.",
     ref='5.12', technique='Coq proof (iterator simulation, tokeniser round trip) + extracted-model/implementation differential + Go replay oracle',
